@@ -217,6 +217,18 @@ Example C14_nonvacuous_lying_size :
 Proof. repeat split; vm_compute; reflexivity. Qed.
 Print Assumptions C14_nonvacuous_lying_size.
 
+(* ---- 3d. what the hand-written coders do with decoded field data ------------------------ *)
+(* the calls, index and slice expressions of every DecodeRLP / EncodeRLP (and of the helpers
+   of its package it calls) are the ones the hand models were written against.  That
+   these coders neither panic nor accept non-canonically on WELL-FORMED records with
+   boundary field values rests on the well-formed sweep of the harness (every byte field
+   at lengths 0,1,7,8,9,31,32,33,55,56,255,256,1000 x every small integer field at
+   0..7,255, through every entry point under recover); this pin makes a new
+   interpretation of decoded bytes inside a coder visible as a broken obligation. *)
+Theorem C14_custom_coder_calls_exact : coder_calls = coder_calls_expected.
+Proof. exact coder_calls_exact. Qed.
+Print Assumptions C14_custom_coder_calls_exact.
+
 (* ---- 4. hostile bytes: the specification decoder is total and linear ------------------ *)
 (* [decode] is a total Coq function (no exception, no divergence) and what it
    builds is at most twice the input.  PARTIAL with respect to the property:
